@@ -7,6 +7,17 @@ _PENDING = ["C01", "C02", "C03", "C04", "C05", "C06", "C07", "C08", "C09", "C10"
 RELAY_NOTE = "Trusted: Coq kernel; the Go harness (event abstraction: the harness records the credential descriptor, attribute presence/size and relay port it used), pion/stun encoding and MESSAGE-INTEGRITY, Go timers under testing/synctest. One listener/one allocation manager is modelled; TCP relay connections are C16's model."
 
 CHECKS = [
+    {"property_id": "C14",
+     "text": "Coq theorem over an abstract timed system (Model/KeepAlive.v): for every number of refresh cycles, every handler duration up to "
+             "three transactions that do not lose all their transmissions, and every instant at which the server processes the refresh, the "
+             "server-side timeout is always re-armed before it expires, provided interval + 2 x 23.4 s < timeout; the defaults satisfy it for "
+             "allocation, permissions and channel bindings; stale-nonce recovery and Close => Refresh 0 => allocation removed. A real client runs "
+             "against a real server for 3 (thorough: 6) virtual hours under loss schedules, busy and idle, 1-3 peers plus a peer first written to "
+             "just after the first nonce went stale; the server-side timelines are checked against the cycle bound and the deadlines, probes "
+             "both ways every minute, AllocationCount after Close.",
+     "note": "Partial: the theorem is about the abstract cycle system; that the goroutine-based PeriodicTimer drivers obey its cycle bound is "
+             "checked on the observed timelines, not proved. 'Compatible configuration' is given the precise meaning interval + 2H < timeout.",
+     "technique": "Coq proof (induction on refresh cycles with a slack invariant) + timeline correspondence of a real client/server pair under testing/synctest"},
     {"property_id": "C13",
      "text": "Coq theorems on Model/ClientConn.v: per WriteTo, data goes out only with a permission (old, or from this call's successful "
              "CreatePermission), with the exact payload, never after Close, ChannelData only on a usable binding of exactly that peer; over "
